@@ -111,7 +111,8 @@ def mc_programs(alphabet: str, mode: str, maxnodes: int, workers: int = 4, timeo
     cfg.write_text("SPECIFICATION Spec\nCONSTANTS\n  MaxNodes = %d\n  Mode = \"%s\"\n  Alphabet = \"%s\"\n"
                    "INVARIANT SemanticsTheorems\nINVARIANT Export\nINVARIANT ExportLib\n" % (maxnodes, mode, alphabet))
     out, lib = w / "pages.ndjson", w / "lib.json"
-    r = tlc.run("MC_Djc", str(cfg), env={"OUT": str(out), "LIB": str(lib)}, workers=workers, timeout=timeout, heap="6g")
+    r = tlc.run("MC_Djc", str(cfg), env={"OUT": str(out), "LIB": str(lib)}, workers=workers if maxnodes < 4 else 10,
+                timeout=timeout, heap="6g" if maxnodes < 4 else "10g")
     tlc.require_ok(r, f"MC_Djc {alphabet}/{mode}/{maxnodes}")
     libd = json.loads(lib.read_text().splitlines()[0])
     progs, exp = [], {}
@@ -184,33 +185,39 @@ def compare_batch(chk, progs, exp, obs, label: str, extra_check=None) -> Dict[st
         return stats
     stats["mismatch"] = len(bad)
     devs = known_devs(chk)
-    subsets = [list(c) for k in range(1, len(devs) + 1) for c in itertools.combinations(devs, k)]
     explained = {}
-    if subsets:
+    zone_under = {}
+    # smallest explaining subset first: singles for every disagreement, pairs only for what is left, ...
+    for k in range(1, len(devs) + 1):
+        todo = [bi for bi in range(len(bad)) if bi not in explained]
+        if not todo:
+            break
+        subsets = [list(c) for c in itertools.combinations(devs, k)]
         batch = []
-        for bi, (p, o, m) in enumerate(bad):
+        for bi in todo:
             for si, sub in enumerate(subsets):
-                q = dict(p)
+                q = dict(bad[bi][0])
                 q["id"] = bi * 1000 + si
                 q["devs"] = sub
                 batch.append(q)
         res = oracle(batch)
-        for bi, (p, o, m) in enumerate(bad):
+        for bi in todo:
+            p, o, m = bad[bi]
             for si, sub in enumerate(subsets):
                 e2 = res[bi * 1000 + si]
                 if not e2["zone"] and mismatch(e2, o) is None and not (extra_check and extra_check(p, e2, o)):
                     explained[bi] = sub
                     break
-            else:
-                # no subset predicts the observation exactly; if under a single deviation the program
-                # enters an unspecified zone of the specification (the deviation applies, and what it
-                # produces there is not determined - e.g. a leaked loop variable colliding with a
-                # {% with %} between tag and fill) the disagreement belongs to that deviation
-                for si, sub in enumerate(subsets):
-                    if len(sub) == 1 and res[bi * 1000 + si]["zone"]:
-                        explained[bi] = sub
-                        chk.add("deviation_enters_zone", 1)
-                        break
+                if k == 1 and e2["zone"] and bi not in zone_under:
+                    zone_under[bi] = sub
+    # no subset predicts the observation exactly; if under a single deviation the program enters an
+    # unspecified zone of the specification (the deviation applies, and what it produces there is not
+    # determined - e.g. a leaked loop variable colliding with a {% with %} between tag and fill) the
+    # disagreement belongs to that deviation
+    for bi, sub in zone_under.items():
+        if bi not in explained:
+            explained[bi] = sub
+            chk.add("deviation_enters_zone", 1)
     # Fallback for the for-loop leak only: its exact model covers every case met while building except rare
     # interplays with other captured layers; a disagreement in which ONLY variable prints differ, each from the
     # empty value to a loop item / loop counter of the program, is that same known finding (leak-shaped).
@@ -229,6 +236,17 @@ def compare_batch(chk, progs, exp, obs, label: str, extra_check=None) -> Dict[st
         else:
             chk.violation(case, m)
     return stats
+
+
+def compare_sliced(chk, progs, exp, real_fn, label: str, extra_check=None, size: int = 20000) -> Dict[str, int]:
+    """compare_batch over slices (bounded memory / pickling for the large exhaustive enumerations)."""
+    tot: Dict[str, int] = {}
+    for i in range(0, len(progs), size):
+        part = progs[i:i + size]
+        st = compare_batch(chk, part, exp, real_fn(part), label, extra_check)
+        for k, v in st.items():
+            tot[k] = tot.get(k, 0) + v
+    return tot or {"ok": 0, "zone": 0, "mismatch": 0, "known": 0}
 
 
 # ------------------------------------------------------------------ pinned known-finding cases
